@@ -744,7 +744,49 @@ func maskedBy(idx ssa.Value, S ssa.Value, seen map[ssa.Value]bool) (bool, string
 }
 
 func isLenMinusOne(m ssa.Value, S ssa.Value) bool {
+	return isLenMinusOneD(m, S, 0)
+}
+
+func isLenMinusOneD(m ssa.Value, S ssa.Value, depth int) bool {
 	m = stripConvAll(m)
+	if depth < 2 {
+		// (a) mask and table are both parameters of a helper: the relation holds at every call of the helper
+		if pm, ok := m.(*ssa.Parameter); ok {
+			if ps, ok := rootValue(S).(*ssa.Parameter); ok && ps.Parent() == pm.Parent() && accessPath(S) == accessPath(ps) {
+				fn := pm.Parent()
+				im, is := -1, -1
+				for i, q := range fn.Params {
+					if q == pm {
+						im = i
+					}
+					if q == ps {
+						is = i
+					}
+				}
+				sites := callSitesInPackage(fn)
+				if len(sites) == 0 || im < 0 || is < 0 {
+					return false
+				}
+				for _, call := range sites {
+					args := call.Common().Args
+					if im >= len(args) || is >= len(args) || !isLenMinusOneD(args[im], args[is], depth+1) {
+						return false
+					}
+				}
+				return true
+			}
+		}
+		// (b) the mask is kept in a field beside the table: every function of the package that stores either field
+		// stores both, the mask being len-1 of the table stored with it
+		if fm, xm := fieldOf(m); fm != nil {
+			if fs, xs := fieldOf(S); fs != nil && accessPath(xm) == accessPath(xs) && accessPath(xm) != "" {
+				fn := instrParent(m)
+				if fn != nil && fn.Pkg != nil && maskFieldInvariant(fn.Pkg, fm, fs, depth) {
+					return true
+				}
+			}
+		}
+	}
 	sub, ok := m.(*ssa.BinOp)
 	if !ok || sub.Op != token.SUB {
 		return false
@@ -765,6 +807,130 @@ func isLenMinusOne(m ssa.Value, S ssa.Value) bool {
 		return stripConvAll(mk.Len) == n
 	}
 	return false
+}
+
+func instrParent(v ssa.Value) *ssa.Function {
+	if in, ok := v.(ssa.Instruction); ok {
+		return in.Parent()
+	}
+	return nil
+}
+
+// callSitesInPackage: the static calls of fn in the functions of its own package.
+func callSitesInPackage(fn *ssa.Function) []ssa.CallInstruction {
+	var out []ssa.CallInstruction
+	if fn.Pkg == nil {
+		return nil
+	}
+	for _, m := range fn.Pkg.Members {
+		scan := func(f *ssa.Function) {
+			var visit func(f *ssa.Function)
+			visit = func(f *ssa.Function) {
+				eachInstr(f, func(in ssa.Instruction) {
+					if ci, ok := in.(ssa.CallInstruction); ok && ci.Common().StaticCallee() == fn {
+						out = append(out, ci)
+					}
+				})
+				for _, af := range f.AnonFuncs {
+					visit(af)
+				}
+			}
+			visit(f)
+		}
+		switch t := m.(type) {
+		case *ssa.Function:
+			scan(t)
+		case *ssa.Type:
+			for _, recv := range []types.Type{t.Type(), types.NewPointer(t.Type())} {
+				ms := fn.Prog.MethodSets.MethodSet(recv)
+				for i := 0; i < ms.Len(); i++ {
+					if mf := fn.Prog.MethodValue(ms.At(i)); mf != nil && mf.Pkg == fn.Pkg && mf.Synthetic == "" {
+						scan(mf)
+					}
+				}
+			}
+		}
+	}
+	// the same call is found once per receiver form: de-duplicate
+	seen := map[ssa.CallInstruction]bool{}
+	var uniq []ssa.CallInstruction
+	for _, ci := range out {
+		if !seen[ci] {
+			seen[ci] = true
+			uniq = append(uniq, ci)
+		}
+	}
+	return uniq
+}
+
+// maskFieldInvariant: wherever a function of pkg stores the table field it also stores the mask field of the same
+// struct with len(table stored)-1, and the mask field is stored nowhere else.
+func maskFieldInvariant(pkg *ssa.Package, maskFld, tableFld *types.Var, depth int) bool {
+	type pair struct{ mask, table *ssa.Store }
+	ok := true
+	n := 0
+	check := func(f *ssa.Function) {
+		var masks, tables []*ssa.Store
+		var visit func(f *ssa.Function)
+		visit = func(f *ssa.Function) {
+			eachInstr(f, func(in ssa.Instruction) {
+				st, isSt := in.(*ssa.Store)
+				if !isSt {
+					return
+				}
+				fa, isFA := st.Addr.(*ssa.FieldAddr)
+				if !isFA {
+					return
+				}
+				stt, isStruct := deref(fa.X.Type()).Underlying().(*types.Struct)
+				if !isStruct {
+					return
+				}
+				switch stt.Field(fa.Field) {
+				case maskFld:
+					masks = append(masks, st)
+				case tableFld:
+					tables = append(tables, st)
+				}
+			})
+		}
+		visit(f)
+		if len(masks) == 0 && len(tables) == 0 {
+			return
+		}
+		if len(masks) != len(tables) {
+			ok = false
+			return
+		}
+		for _, ms := range masks {
+			matched := false
+			for _, ts := range tables {
+				if accessPath(ms.Addr.(*ssa.FieldAddr).X) == accessPath(ts.Addr.(*ssa.FieldAddr).X) && isLenMinusOneD(ms.Val, ts.Val, depth+1) {
+					matched = true
+				}
+			}
+			if !matched {
+				ok = false
+			}
+			n++
+		}
+	}
+	for _, m := range pkg.Members {
+		switch t := m.(type) {
+		case *ssa.Function:
+			check(t)
+		case *ssa.Type:
+			for _, recv := range []types.Type{t.Type(), types.NewPointer(t.Type())} {
+				ms := pkg.Prog.MethodSets.MethodSet(recv)
+				for i := 0; i < ms.Len(); i++ {
+					if mf := pkg.Prog.MethodValue(ms.At(i)); mf != nil && mf.Pkg == pkg && mf.Synthetic == "" {
+						check(mf)
+					}
+				}
+			}
+		}
+	}
+	return ok && n > 0
 }
 
 func stripConvAll(v ssa.Value) ssa.Value {
@@ -1871,6 +2037,67 @@ func r46One(c *Ctx, fn *ssa.Function, lenient bool) bool {
 						if getsList && readsStrict && canFail {
 							consulted = true
 						}
+					}
+				}
+			}
+			// or a helper that answers otherwise (the position of the first undeclared value, a bool): the success return
+			// is dominated by a test of the result of a helper that is handed the list and branches on the strict flag,
+			// and the other outcome of that test returns an error
+			if !consulted {
+				for _, g := range dominatingGuards(blk) {
+					if !region(g.If.Block()) {
+						continue
+					}
+					var hc *ssa.Call
+					var scan func(v ssa.Value, d int)
+					scan = func(v ssa.Value, d int) {
+						if d > 2 || hc != nil {
+							return
+						}
+						switch t := v.(type) {
+						case *ssa.Call:
+							if h := t.Call.StaticCallee(); h != nil && h.Pkg == fn.Pkg && h.Blocks != nil {
+								hc = t
+							}
+						case *ssa.BinOp:
+							scan(t.X, d+1)
+							scan(t.Y, d+1)
+						case *ssa.UnOp:
+							scan(t.X, d+1)
+						}
+					}
+					scan(g.If.Cond, 0)
+					if hc == nil {
+						continue
+					}
+					h := hc.Call.StaticCallee()
+					getsList := false
+					for _, a := range hc.Call.Args {
+						if ex, ok := a.(*ssa.Extract); ok && ex.Tuple == ssa.Value(ta) && ex.Index == 0 {
+							getsList = true
+						}
+					}
+					readsStrict := false
+					eachInstr(h, func(i2 ssa.Instruction) {
+						if iff, ok := i2.(*ssa.If); ok {
+							cc, _ := unNot(iff.Cond, true)
+							if fld, _ := fieldOf(cc); fld != nil && fld.Name() == "strict" {
+								readsStrict = true
+							}
+						}
+					})
+					// the edge of the test not taken towards blk ends in an error return
+					otherFails := false
+					for si, sb := range g.If.Block().Succs {
+						if edgeDominates(g.If.Block(), si, blk) {
+							continue
+						}
+						if r2, ok := sb.Instrs[len(sb.Instrs)-1].(*ssa.Return); ok && !returnsNilError(r2) {
+							otherFails = true
+						}
+					}
+					if getsList && readsStrict && otherFails {
+						consulted = true
 					}
 				}
 			}
